@@ -62,6 +62,10 @@ where
 }
 
 pub trait EntryStoreTrait {
+    /// Sort the entries and give them their final position.
+    /// Must be done for all the stores before any of them is finalized,
+    /// as entries may reference entries of another store.
+    fn set_final_positions(&mut self);
     fn finalize(self: Box<Self>) -> Box<dyn WritableTell>;
 }
 
@@ -71,7 +75,7 @@ where
     VN: VariantName + std::fmt::Debug + Sync + 'static,
     Entry: FullEntryTrait<PN, VN> + Send + 'static,
 {
-    fn finalize(mut self: Box<Self>) -> Box<dyn WritableTell> {
+    fn set_final_positions(&mut self) {
         set_entry_idx(&mut self.entries);
         if let Some(keys) = &self.schema.sort_keys {
             let compare = |a: &Entry, b: &Entry| a.compare(&keys, b);
@@ -92,6 +96,10 @@ where
                 }
             }
         }
+    }
+
+    fn finalize(mut self: Box<Self>) -> Box<dyn WritableTell> {
+        self.set_final_positions();
 
         for entry in &mut self.entries {
             self.schema.process(entry);
